@@ -132,6 +132,28 @@ fn case(t: &mut Tape, rec: &mut Rec<'_>) {
     let cx = rm::Ctx { req: &req, world: &world };
     let n = 1 + t.upto(rec.size(5, 8));
     let gps: Vec<GP> = c01::gen_policies(t, n, &cx, 3);
+    let mut gps = gps;
+    // a policy whose condition uses the result of `&&` / `||` over a (to be erased) context attribute in a
+    // non-boolean-demanding position: `(b && context.a) == v` — the type check of the right operand matters
+    if !req.context.is_empty() && t.bool_p(1, 2) {
+        use crate::refmodel::policy::{ActC, PrC, RPolicy};
+        use crate::refmodel::{b, BinOp, Var, E};
+        let keys: Vec<&String> = req.context.keys().collect();
+        let a = keys[t.upto(keys.len())].clone();
+        let lhs_bool = u::gen_expr(t, 1, u::K::Bool);
+        let conn = if t.coin() { E::And(b(lhs_bool), b(E::GetAttr(b(E::Var(Var::Context)), a))) } else { E::Or(b(lhs_bool), b(E::GetAttr(b(E::Var(Var::Context)), a))) };
+        let kind = u::KINDS[t.upto(u::KINDS.len())];
+        let v = crate::emit::text::value_expr(&u::gen_value(t, kind, 1));
+        let cond = match t.upto(3) {
+            0 => E::Bin(BinOp::Eq, b(conn), b(v)),
+            1 => E::Bin(BinOp::Contains, b(E::Set(vec![conn])), b(v)),
+            _ => E::Bin(BinOp::Neq, b(v), b(conn)),
+        };
+        let src = RPolicy { permit: t.coin(), principal: PrC::Any, action: ActC::Any, resource: PrC::Any, conds: vec![(true, cond)], annotations: vec![] };
+        let (outcome, _) = src.outcome(&cx);
+        gps.push(GP { id: "extra-connective".to_string(), src: src.clone(), link: None, meaning: src, outcome });
+    }
+    let n = gps.len();
     let order: Vec<usize> = (0..n).collect();
     let ident = |s: &str| s.to_string();
     let ps: PolicySet = match c01::build_set(&gps, &order, &ident) {
